@@ -63,7 +63,7 @@ func (g *Gen) thesQueries(seg string, reuse bool) {
 
 func (g *Gen) genC12(n int) error {
 	if n == 0 {
-		n = g.tierN(30, 600)
+		n = g.tierN(240, 3600)
 	}
 	for i := 0; i < n; i++ {
 		g.emit("note case %d", i)
@@ -91,7 +91,7 @@ func (g *Gen) genC12(n int) error {
 
 func (g *Gen) genC13(n int) error {
 	if n == 0 {
-		n = g.tierN(30, 600)
+		n = g.tierN(240, 3600)
 	}
 	for i := 0; i < n; i++ {
 		g.emit("note case %d", i)
@@ -113,7 +113,7 @@ func (g *Gen) genC13(n int) error {
 // concurrent builds; every result is dumped and must equal what its own batch dictates.
 func (g *Gen) genC10(n int) error {
 	if n == 0 {
-		n = g.tierN(12, 300)
+		n = g.tierN(96, 1800)
 	}
 	for i := 0; i < n; i++ {
 		g.emit("note case %d", i)
@@ -207,7 +207,7 @@ func (g *Gen) lastBatches(k int) []string {
 // genC11: many goroutines read one shared segment (heap and mmap) at once.
 func (g *Gen) genC11(n int) error {
 	if n == 0 {
-		n = g.tierN(10, 200)
+		n = g.tierN(80, 1200)
 	}
 	for i := 0; i < n; i++ {
 		g.emit("note case %d", i)
@@ -282,7 +282,7 @@ func (g *Gen) smallSegForFaults() (string, *BatchSpec) {
 
 func (g *Gen) genC17(n int) error {
 	if n == 0 {
-		n = g.tierN(6, 80)
+		n = g.tierN(48, 480)
 	}
 	g.emit("cfg mergebuf=%d", 64)
 	defer g.emit("cfg mergebuf=%d", 1024*1024)
@@ -332,7 +332,7 @@ func dropCount(d string) int {
 
 func (g *Gen) genC18(n int) error {
 	if n == 0 {
-		n = g.tierN(6, 80)
+		n = g.tierN(48, 480)
 	}
 	defer g.emit("cfg mergebuf=%d", 1024*1024)
 	for i := 0; i < n; i++ {
